@@ -74,6 +74,16 @@ def job_rows(path):
         con.close()
 
 
+def must_have_child_calls(ast):
+    """The top-level form of the sub-expression is a task call (or a container of task calls): evaluating it inside the
+    sub-scheduler's root job creates at least one child job with provenance."""
+    if ast[0] == "call":
+        return True
+    if ast[0] == "cont":
+        return any(must_have_child_calls(x) for x in (ast[2] if ast[1] != "dict" else [v for _, v in ast[2]]))
+    return False
+
+
 def run_case(ctx, rnd, where):
     install_wrapper()
     d = tempfile.mkdtemp(prefix="verif_c38_")
@@ -102,7 +112,15 @@ def run_case(ctx, rnd, where):
             ctx.nontrivial([ast, new_exec, cache, opts, executor])
         wit = {"ast": ast, "new_execution": new_exec, "cache": cache, "options": opts, "executor": executor, "wrapped": wrap, "where": where}
         subrun_hash = None
+        first_mode = new_exec
+        modes_run = set()
+        mixed_modes = rnd.random() < 0.5
         for run_i in range(rnd.choice([2, 3])):
+            if mixed_modes and run_i > 0:
+                # the same sub-expression through subrun in the other mode, on the same database
+                new_exec = (not first_mode) if run_i == 1 else rnd.random() < 0.5
+                wit = dict(wit, modes_mixed=True, new_execution=new_exec, run=run_i)
+                ctx.count("runs_after_a_run_in_the_other_mode")
             s = make_scheduler(path, executor)
             sub = subrun(wf.build(ast), executor=executor, new_execution=new_exec, **opts)
             expr = [sub, wf_tasks.TASKS["inc"](1)] if wrap else sub
@@ -130,6 +148,15 @@ def run_case(ctx, rnd, where):
             new_rows = [r for r in rows1 if r[0] not in {x[0] for x in rows0}]
             byid = {r[0]: r for r in rows1}
             sub_jobs = [r for r in new_rows if r[3] == "redun.subrun_root_task" and not r[4]]
+            # The two modes are different calls: the first evaluation in a mode cannot be answered from what the other
+            # mode recorded (an extending subrun would then have no jobs under the calling job anywhere, a new-execution
+            # subrun no execution of its own).
+            if new_exec not in modes_run and modes_run and not sub_jobs:
+                ctx.violation("subrun-answered-from-the-other-modes-record", "run %d is the first %s subrun of this expression on the "
+                              "database, yet no sub-scheduler was started (earlier runs used the other mode)" % (
+                                  run_i, "new-execution" if new_exec else "extending"), wit)
+                return
+            modes_run.add(new_exec)
             if not sub_jobs:
                 ctx.count("subrun_served_from_cache")
                 continue
